@@ -8,19 +8,6 @@ Local Open Scope N_scope.
 Lemma match_funcs_nil n : match_funcs [] n = true.
 Proof. reflexivity. Qed.
 
-Lemma g_tasks_step_entry c tasks g i r : r_type r = ENTRY ->
-  g_tasks (snd (step c tasks g i r)) =
-  let ts1 := stamp (tget (consume tasks g i r) i) (r_time r) in
-  let ts2 := if is_fork c (r_addr r) then set_fork ts1 (t_dd ts1 + 1) else ts1 in
-  tupd (g_tasks (consume tasks g i r)) i (set_dd ts2 (t_dd ts2 + 1)).
-Proof. intros H. unfold step. rewrite H. reflexivity. Qed.
-
-Lemma g_tasks_step_exit c tasks g i r : r_type r = EXIT ->
-  g_tasks (snd (step c tasks g i r)) =
-  let ts1 := stamp (tget (consume tasks g i r) i) (r_time r) in
-  tupd (g_tasks (consume tasks g i r)) i (set_dd ts1 (N.pred (t_dd ts1))).
-Proof. intros H. unfold step. rewrite H. reflexivity. Qed.
-
 Lemma consume_tasks_only tasks g g' i r : g_tasks g = g_tasks g' ->
   g_tasks (consume tasks g i r) = g_tasks (consume tasks g' i r).
 Proof.
@@ -40,46 +27,38 @@ Proof.
   cbn [script_loop].
   pose proof (consume_tasks_only tasks g g' i r Hg) as Hc.
   pose proof (tget_tasks_only _ _ i Hc) as Ht.
-  destruct (step (mkcfg false forks) tasks g' i r) as [ls g1'] eqn:Es.
-  assert (Els : ls = fst (step (mkcfg false forks) tasks g' i r)) by (rewrite Es; reflexivity).
-  assert (Eg : g1' = snd (step (mkcfg false forks) tasks g' i r)) by (rewrite Es; reflexivity).
+  pose proof (tget_tasks_only _ _ i Hg) as Hp.
+  unfold step. rewrite <- Hp, <- Ht. unfold is_fork. cbn [c_forks].
+  set (pend := t_lost (tget g i)).
+  set (ts1 := stamp (tget (consume tasks g i r) i) (r_time r)).
+  set (depth := if pend then t_sc ts1 - 1 else t_dd ts1).
+  set (ts2 := if existsb (N.eqb (r_addr r)) forks then set_fork ts1 (depth + 1) else ts1).
   destruct (r_type r) eqn:Hty.
   - (* ENTRY *)
-    specialize (IH (tset (consume tasks g i r) i
-                     (set_dd (if existsb (N.eqb (r_addr r)) forks
-                              then set_fork (stamp (tget (consume tasks g i r) i) (r_time r))
-                                            (t_dd (stamp (tget (consume tasks g i r) i) (r_time r)) + 1)
-                              else stamp (tget (consume tasks g i r) i) (r_time r))
-                             (t_dd (if existsb (N.eqb (r_addr r)) forks
-                                    then set_fork (stamp (tget (consume tasks g i r) i) (r_time r))
-                                                  (t_dd (stamp (tget (consume tasks g i r) i) (r_time r)) + 1)
-                                    else stamp (tget (consume tasks g i r) i) (r_time r)) + 1))) g1').
-    destruct (run (mkcfg false forks) tasks tl g1') as [out g2'] eqn:Er. cbn [fst] in *.
-    rewrite events_of_app, map_app, filter_app.
-    rewrite IH.
-    + f_equal. rewrite Els. unfold step. rewrite Hty. cbn [fst].
-      rewrite events_warn_app by apply warn_of_warn. unfold events_of_line, mk.
+    match goal with |- context [run _ tasks tl ?G] => specialize (IH (tset (consume tasks g i r) i (set_dd ts2 (depth + 1))) G) end.
+    match goal with |- context [run ?C tasks tl ?G] => destruct (run C tasks tl G) as [out g2'] eqn:Er end.
+    cbn [fst] in *. rewrite events_of_app, map_app, filter_app, IH.
+    + f_equal. rewrite events_warn_app by apply warn_of_warn. unfold events_of_line, mk.
       cbn [l_kind l_task l_indent l_name l_time l_dur map cb_of_event e_open e_task e_indent e_name e_time e_dur filter cb_keep].
-      unfold is_fork. cbn [c_forks]. rewrite <- Ht.
-      destruct (existsb (N.eqb (r_addr r)) forks); cbn [set_fork stamp t_dd t_ts];
-        destruct (match_funcs funcs (r_addr r)); reflexivity.
-    + rewrite Eg, (g_tasks_step_entry _ _ _ _ _ Hty). cbn zeta. unfold tset, is_fork. cbn [g_tasks c_forks].
-      rewrite Hc, Ht. reflexivity.
+      replace (t_ts ts2) with (r_time r) by (unfold ts2, ts1; destruct (existsb (N.eqb (r_addr r)) forks); reflexivity).
+      destruct (match_funcs funcs (r_addr r)); reflexivity.
+    + unfold tset. cbn [g_tasks]. rewrite Hc. reflexivity.
   - (* EXIT *)
-    specialize (IH (tset (consume tasks g i r) i
-                     (set_dd (stamp (tget (consume tasks g i r) i) (r_time r))
-                             (N.pred (t_dd (stamp (tget (consume tasks g i r) i) (r_time r)))))) g1').
-    destruct (run (mkcfg false forks) tasks tl g1') as [out g2'] eqn:Er. cbn [fst] in *.
-    rewrite events_of_app, map_app, filter_app.
-    rewrite IH.
-    + f_equal. rewrite Els. unfold step. rewrite Hty. cbn [fst].
-      rewrite events_warn_app by apply warn_of_warn. unfold events_of_line, mk.
+    match goal with |- context [run _ tasks tl ?G] => specialize (IH (tset (consume tasks g i r) i (set_dd ts1 (if pend then t_sc ts1 else N.pred (t_dd ts1)))) G) end.
+    match goal with |- context [run ?C tasks tl ?G] => destruct (run C tasks tl G) as [out g2'] eqn:Er end.
+    cbn [fst] in *. rewrite events_of_app, map_app, filter_app, IH.
+    + f_equal. rewrite events_warn_app by apply warn_of_warn. unfold events_of_line, mk.
       cbn [l_kind l_task l_indent l_name l_time l_dur map cb_of_event e_open e_task e_indent e_name e_time e_dur filter cb_keep
            set_dd stamp t_dd t_ts t_stack t_sc].
-      rewrite <- Ht.
       destruct (match_funcs funcs (r_addr r)); reflexivity.
-    + rewrite Eg, (g_tasks_step_exit _ _ _ _ _ Hty). cbn zeta. unfold tset. cbn [g_tasks].
-      rewrite Hc, Ht. reflexivity.
+    + unfold tset. cbn [g_tasks]. rewrite Hc. reflexivity.
+  - (* LOST: no callback, no call shown *)
+    match goal with |- context [run _ tasks tl ?G] => specialize (IH (consume tasks g i r) G) end.
+    match goal with |- context [run ?C tasks tl ?G] => destruct (run C tasks tl G) as [out g2'] eqn:Er end.
+    cbn [fst] in *. rewrite events_of_app, map_app, filter_app, IH.
+    + rewrite events_warn_lost; [reflexivity|apply warn_of_warn|].
+      destruct (t_usc _ =? 0); repeat constructor.
+    + cbn [g_tasks]. exact Hc.
 Qed.
 
 Lemma filter_true {A} (l : list A) : filter (fun _ => true) l = l.
